@@ -275,6 +275,8 @@ pub fn run_check(spec: &PropSpec, tier: &str, verif_seed: u64, verif_dir: &str) 
         }
         0
     };
+    let known = load_known(&format!("{}/known_findings.json", verif_dir));
+    let is_known = |kind: &str, detail: &str| known.iter().any(|k| k.property == spec.id && k.status == "known" && k.kind == kind && k.contains.iter().all(|c| detail.contains(c.as_str())));
     let next = AtomicU64::new(0);
     let stop = AtomicBool::new(false);
     let agg = Mutex::new(Agg::default());
@@ -302,9 +304,19 @@ pub fn run_check(spec: &PropSpec, tier: &str, verif_seed: u64, verif_dir: &str) 
                     let o = run_family(spec.families[fi].f, Chooser::generate(seed), &ctx);
                     local.absorb(&o, fi);
                     if let Some((kind, detail)) = first_kind(&o, spec) {
-                        local.found.push(Found { family: fi, index: i, seed, kind, detail, choices: o.choices.clone() });
-                        if local.found.len() >= 4 {
-                            stop.store(true, Ordering::Relaxed);
+                        if is_known(&kind, &detail) {
+                            // a listed finding: keep one representative per family and kind, and
+                            // keep exploring (it must not shorten the campaign)
+                            local.known_hits += 1;
+                            if !local.found.iter().any(|f| f.family == fi && f.kind == kind) {
+                                local.found.push(Found { family: fi, index: i, seed, kind, detail, choices: o.choices.clone() });
+                            }
+                        } else {
+                            local.found.push(Found { family: fi, index: i, seed, kind, detail, choices: o.choices.clone() });
+                            local.unknown_found += 1;
+                            if local.unknown_found >= 4 {
+                                stop.store(true, Ordering::Relaxed);
+                            }
                         }
                     }
                 }
@@ -334,7 +346,6 @@ pub fn run_check(spec: &PropSpec, tier: &str, verif_seed: u64, verif_dir: &str) 
         }));
     }
 
-    let known = load_known(&format!("{}/known_findings.json", verif_dir));
     let mut exit = 0;
     let mut reported = BTreeSet::new();
     let mut violations = 0;
@@ -420,6 +431,7 @@ pub fn run_check(spec: &PropSpec, tier: &str, verif_seed: u64, verif_dir: &str) 
             "stats_max": agg.stats_max,
             "stats_sum": agg.stats_sum,
             "wall_capped": agg.capped,
+            "known_finding_hits": agg.known_hits,
             "components": { "real": spec.real, "stub": spec.stub },
             "threads": threads,
         },
@@ -463,6 +475,8 @@ struct Agg {
     stats_sum: BTreeMap<&'static str, f64>,
     expected_probes: BTreeSet<&'static str>,
     capped: bool,
+    known_hits: u64,
+    unknown_found: u64,
 }
 
 impl Agg {
@@ -525,6 +539,8 @@ impl Agg {
             *self.stats_sum.entry(k).or_insert(0.0) += v;
         }
         self.capped |= o.capped;
+        self.known_hits += o.known_hits;
+        self.unknown_found += o.unknown_found;
     }
 }
 
